@@ -66,7 +66,8 @@ type ops struct {
 	name  string
 	elems []scalar // element i = elems[i].k * base
 	// real side
-	unm   func(b []byte) any // Unmarshal of a canonical encoding (panics if rejected)
+	unm   func(b []byte) any                   // Unmarshal of a canonical encoding (panics if rejected)
+	unmTo func(recv any, b []byte) (any, bool) // Unmarshal into an existing element
 	add   func(a, b any) any
 	neg   func(a any) any // nil when the package has no Neg for the group
 	smul  func(a any, k *big.Int) any
@@ -208,6 +209,7 @@ func run(c *vf.Ctx) {
 			}
 			return e
 		},
+		unmTo: func(r any, b []byte) (any, bool) { e, ok := r.(*bn256.G1).Unmarshal(b); return e, ok },
 		add:   func(a, b any) any { return new(bn256.G1).Add(a.(*bn256.G1), b.(*bn256.G1)) },
 		neg:   func(a any) any { return new(bn256.G1).Neg(a.(*bn256.G1)) },
 		smul:  func(a any, k *big.Int) any { return new(bn256.G1).ScalarMult(a.(*bn256.G1), k) },
@@ -243,6 +245,7 @@ func run(c *vf.Ctx) {
 			}
 			return e
 		},
+		unmTo: func(r any, b []byte) (any, bool) { e, ok := r.(*bn256.G2).Unmarshal(b); return e, ok },
 		add:   func(a, b any) any { return new(bn256.G2).Add(a.(*bn256.G2), b.(*bn256.G2)) },
 		smul:  func(a any, k *big.Int) any { return new(bn256.G2).ScalarMult(a.(*bn256.G2), k) },
 		enc:   func(a any) []byte { return a.(*bn256.G2).Marshal() },
@@ -281,11 +284,12 @@ func run(c *vf.Ctx) {
 		return e
 	}
 	gt := &ops{name: "GT", elems: elems,
-		unm:  unmGT,
-		add:  func(a, b any) any { return new(bn256.GT).Add(a.(*bn256.GT), b.(*bn256.GT)) },
-		neg:  func(a any) any { return new(bn256.GT).Neg(a.(*bn256.GT)) },
-		smul: func(a any, k *big.Int) any { return new(bn256.GT).ScalarMult(a.(*bn256.GT), k) },
-		enc:  func(a any) []byte { return a.(*bn256.GT).Marshal() },
+		unm:   unmGT,
+		unmTo: func(r any, b []byte) (any, bool) { e, ok := r.(*bn256.GT).Unmarshal(b); return e, ok },
+		add:   func(a, b any) any { return new(bn256.GT).Add(a.(*bn256.GT), b.(*bn256.GT)) },
+		neg:   func(a any) any { return new(bn256.GT).Neg(a.(*bn256.GT)) },
+		smul:  func(a any, k *big.Int) any { return new(bn256.GT).ScalarMult(a.(*bn256.GT), k) },
+		enc:   func(a any) []byte { return a.(*bn256.GT).Marshal() },
 		extra: []ctor{
 			{"ScalarMult(e(P,Q),k)", func(i int) any { return new(bn256.GT).ScalarMult(unmGT(gt0enc).(*bn256.GT), elems[i].k) }},
 			{"Pair(kP,Q)", func(i int) any {
@@ -397,6 +401,34 @@ func groupLaws(c *vf.Ctx, g *ops, scalars []scalar) {
 			// Unmarshal(Marshal(e)) is the same element
 			if back := g.enc(g.unm(got)); !bytes.Equal(back, got) {
 				c.Violation(g.name+": Unmarshal(Marshal(e)) != e", what)
+			}
+		})
+	})
+	// 0b. Unmarshal into a receiver that already holds another element (every element x form,
+	// including the identity and unreduced results of arithmetic): the receiver must become
+	// exactly the decoded element, for Marshal and for further arithmetic
+	c.ParallelFor(ne*ne*na, func(ix int) {
+		i, j, fj := ix/(ne*na), ix/na%ne, ix%na
+		what := fmt.Sprintf("%s Unmarshal(%s) into a receiver holding %s [%s]", g.name, g.elems[i].name, g.elems[j].name, g.formName(fj))
+		protect(c, g.name+".Unmarshal (reused receiver)", what, func() {
+			c.Eval(1)
+			c.Nontrivial("unmreuse|" + what)
+			recv := g.mk(j, fj)
+			e, ok := g.unmTo(recv, g.encA[i])
+			if !ok {
+				c.Violation(g.name+".Unmarshal into a used receiver rejects a canonical encoding", what)
+				return
+			}
+			if got := g.enc(e); !bytes.Equal(got, g.encA[i]) {
+				c.Violation(g.name+".Unmarshal into a used receiver gives a different element", map[string]any{"case": what, "got": vf.Hex8(got), "want": vf.Hex8(g.encA[i])})
+				return
+			}
+			if got := g.enc(recv); !bytes.Equal(got, g.encA[i]) {
+				c.Violation(g.name+".Unmarshal into a used receiver: receiver and result differ", what)
+			}
+			k := (i + j + 1) % ne
+			if got, want := g.enc(g.add(e, g.mk(k, 0))), g.mAdd(g.encA[i], g.encA[k]); !bytes.Equal(got, want) {
+				c.Violation(g.name+".Add with an element unmarshalled into a used receiver differs from the model", what)
 			}
 		})
 	})
